@@ -20,8 +20,11 @@ TRUSTED_BASE = _life.TRUSTED_BASE + [
     'before, exit callbacks of the source, set_state, enter callbacks of dest, after_state_change also for the internal transition; '
     'on_enter_<state>/on_exit_<state> discovered iff the model has the method; MachineError iff no row; file/line references in the header), '
     'the event data of each trigger (reset(reset_options=...), the others without arguments), the meaning of each hook / wait over the model state '
-    '(the model\'s own helpers log_hook / change_state_hook / ...; names of the suspension points gate_pc) and the Imp-level epilogue after a trigger '
-    '(copied from the model; Life/ImpTie.v); not modelled: a hook or wait that raises or is cancelled inside a trigger, the catching of the awaiting '
+    '(the model\'s own helpers log_hook / change_state_hook / ...; names of the suspension points gate_pc); the Imp-level epilogue after a trigger '
+    'is no longer trusted: Life/MachineImpTie.v derives it from Gen/ImpSkeleton.v (rest of the Imp method after the trigger, release included, tail of '
+    'Nextline.close) and proves it equal; what remains copied from the model there: after_imp (what the Nextline wrapper does with the returned call: '
+    'return / run_session waits for the run / close() that had to start first goes on), the lock acquisition (the model\'s acquire), hook.init without '
+    'effect on the model state, an exception leaving `async with` releases the lock, the name tables imp_trig_name / trig_of_name; Life/MachineCont.v: the continuation stored at every park is after_pc of the one program (generic lemma, proved); not modelled: a hook or wait that raises or is cancelled inside a trigger, the catching of the awaiting '
     'task\'s own cancellation by `except BaseException` in Callback.on_exit_finished (the clause itself is required syntactically)',
 ]
 ASSUMPTIONS = _life.ASSUMPTIONS
